@@ -715,6 +715,18 @@ def mk_fn(name, arg):
                 else:
                     res = res + Rat(Poly.atom(("fn", "log", _intern(Rat(Poly.atom(a)))))) * e
             return res
+        # log(c * m * rest) = log c + log m + log rest  (monomial and rational content pulled out)
+        mono, rest = _split_monomial_content(p)
+        c = rest.content()
+        _, lc = rest.leading()
+        if mono or (c != 1 and lc > 0):
+            res = Rat(Poly())
+            if mono:
+                res = res + mk_fn("log", Rat(Poly({mono: Fraction(1)})))
+            if c != 1 and lc > 0:
+                res = res + mk_fn("log", Rat(Poly.const(c)))
+                rest = rest.scale(1 / c)
+            return res + mk_fn("log", Rat(rest))
         return Rat(Poly.atom(("fn", "log", _intern(arg))))
     if name in ("floor", "fabs", "exp", "min", "max"):
         return Rat(Poly.atom(("fn", name, _intern(arg))))
